@@ -222,6 +222,10 @@ let run_op (op : string) (r : rd) : unit =
                        let d = Paths.include_directive_text rel in put_str d; sp (); put_opt put_str (Paths.directive_name d)
   | "write_text" -> let foam = get_bool r in let p = get_str r in let ex = get_opt r get_str in let ap = get_bool r in
                     let d = get_kvs r in put_res put_str (Reader.write_text foam p ex ap d)
+  | "writer_run" -> let foam = get_bool r in let target = get_str r in
+                    let w = get_list r (fun r -> let p = get_str r in let t = get_str r in (p, t)) in
+                    let ops = get_list r (fun r -> let ap = get_bool r in let d = get_kvs r in (ap, d)) in
+                    put_list (fun (p, t) -> put_str p; sp (); put_str t) (Reader.writer_run foam w target ops)
   | "xml_parse" -> let nb = get_bool r in let n = get_int r in let e = get_elem r in
                    let (d, c) = Xml.xml_parse nb e n in put_tree (Value.Dict d); sp (); put_int c
   | "xml_populate" -> let tag = get_str r in let t = get_tree r in put_elem (Xml.populate tag t)
